@@ -9,10 +9,20 @@ are in the writer's canonical order: Type, Subtype, then the other keys sorted) 
 def canonOK (es : List Entry) : Bool :=
   dictBytes es == asc "<<" ++ (es.map entryBytes).flatten ++ asc ">>"
 
+/-- a name the writer may emit unescaped: regular characters only and no `#` -/
+def nameOK (s : Bytes) : Bool := s.all isReg && s.all (fun c => c != 0x23)
+
+theorem nameOK_reg {s : Bytes} (h : nameOK s = true) : s.all isReg = true := by
+  unfold nameOK at h; simp only [Bool.and_eq_true] at h; exact h.1
+
+theorem nameOK_unesc {s : Bytes} (h : nameOK s = true) : unescName s = s := by
+  unfold nameOK at h; simp only [Bool.and_eq_true, List.all_eq_true, bne_iff_ne, ne_eq] at h
+  exact unescName_id s h.2
+
 mutual
   def wf : Val → Bool
-    | .num p => numTok p
-    | .name s => s.all isReg
+    | .num p => isNumTok p
+    | .name s => nameOK s
     | .arr xs => wfList xs
     | .dict kvs => wfKvs kvs && canonOK (serKvs kvs)
     | .stream _ _ => false
@@ -22,7 +32,7 @@ mutual
     | v :: vs => wf v && wfList vs
   def wfKvs : List (Bytes × Val) → Bool
     | [] => true
-    | (k, v) :: r => k.all isReg && wf v && wfKvs r
+    | (k, v) :: r => nameOK k && wf v && wfKvs r
 end
 
 set_option maxRecDepth 100000 in
@@ -59,7 +69,7 @@ theorem ser_head (v : Val) (h : wf v = true) : ∃ c r, ser v = c :: r ∧ HeadO
     exact ⟨c, r, by simp only [ser]; exact e, headOK_numChar c hc⟩
   | num p =>
     simp only [wf] at h
-    obtain ⟨c, r, e, hc, _⟩ := numTok_cons p h
+    obtain ⟨c, r, e, hc, _⟩ := numTok_cons p (isNumTok_numTok p h)
     exact ⟨c, r, by simp only [ser]; exact e, headOK_numChar c hc⟩
   | str s => exact ⟨0x28, _, by simp only [ser, writeString]; rfl, by decide, by decide, by decide, by decide⟩
   | ref n =>
@@ -152,7 +162,7 @@ theorem Tail.noRef {T : Bytes} (h : Tail T) : P.refAhead T = none := by
         rw [hsk]; simp only [ser]
         exact spanReg_append kTrue T0 (by decide) ht.nr
     | int i => exact numCase _ (intBytes_numTok i) (by simp only [ser])
-    | num p => exact numCase p (by simpa only [wf] using hv) (by simp only [ser])
+    | num p => exact numCase p (isNumTok_numTok p (by simpa only [wf] using hv)) (by simp only [ser])
     | str s => exact delimCase 0x28 _ (by decide) (by simp only [ser, writeString]; rfl)
     | name s => exact delimCase 0x2F s (by decide) (by simp only [ser])
     | arr xs => exact delimCase 0x5B _ (by decide) (by simp only [ser]; rfl)
